@@ -28,6 +28,9 @@ type BSpec struct {
 	Rule        string
 	Assumptions []string
 	DesignRef   string
+	// CompileFailIsFailure: a witness/replay group whose parser is refused or does not
+	// compile counts as a failing witness (C04).
+	CompileFailIsFailure bool
 	// Revariant recomputes the flag sets for a reduced grammar (flags that name rules).
 	Revariant func(g *gspec.Grammar, old []batch.Variant) []batch.Variant
 	// Post inspects the batch result (C04: compile failures are violations there).
@@ -205,6 +208,20 @@ func runB(r *Run, s *BSpec) error {
 	for _, n := range tot.Notes {
 		r.Logf("note: %s", n)
 	}
+	if s.CompileFailIsFailure {
+		for _, g := range res.Meta.Groups {
+			if g.Witness == "" {
+				continue
+			}
+			for _, p := range g.Pkgs {
+				if p.Refused || p.CompileFail {
+					witnessRun[g.Witness] = true
+					witnessFail[g.Witness] = true
+					r.Logf("note: witness %s: generated parser refused or not compiling: %s%s", g.Witness, trunc(p.Stderr, 200), trunc(p.CompileErr, 300))
+				}
+			}
+		}
+	}
 
 	// witnesses: an open finding that still reproduces is announced; anything else that
 	// fails (fixed findings, saved regressions, --replay) is a violation
@@ -348,6 +365,23 @@ func handleCrash(r *Run, s *BSpec, res *batch.Result, cr batch.Crash) {
 		r.Infra("shard %d died; current case unreadable", cr.Shard)
 		return
 	}
+	if strings.Contains(cr.Stderr, "DATA RACE") {
+		// the race detector reports only real races: no confirmation run needed
+		g := res.Meta.Groups[cur.Group]
+		specB, _ := os.ReadFile(filepath.Join(r.Work, g.SpecFile))
+		var variants []batch.Variant
+		for _, p := range g.Pkgs {
+			variants = append(variants, batch.Variant{Name: p.Variant, Flags: stripRecv(p.Flags)})
+		}
+		spec, _ := gspec.FromJSON(specB)
+		text := ""
+		if spec != nil {
+			text = gspec.Print(spec, gspec.PrintOpts{StubCode: true, NoInit: true})
+		}
+		r.Violation(&ReplayFile{Property: s.ID, Engine: "batch", Kind: "data_race", RepoHead: repoHead(r.Repo), Seed: r.Opt.Seed, Tier: r.Opt.Tier, Spec: specB,
+			Grammar: text, Variants: variants, Case: cur.Case, Diff: "the race detector reported a data race: " + raceSummary(cr.Stderr)})
+		return
+	}
 	if cr.Timeout && !cr.Hang {
 		r.Infra("shard %d exceeded its time limit", cr.Shard)
 		return
@@ -399,6 +433,20 @@ func handleCrash(r *Run, s *BSpec, res *batch.Result, cr batch.Crash) {
 		return
 	}
 	r.Infra("shard %d died but the case did not reproduce in isolation (%d/2)", cr.Shard, confirmed)
+}
+
+func raceSummary(stderr string) string {
+	var out []string
+	for _, l := range strings.Split(stderr, "\n") {
+		t := strings.TrimSpace(l)
+		if strings.HasPrefix(t, "Write at") || strings.HasPrefix(t, "Read at") || strings.HasPrefix(t, "Previous") || strings.Contains(t, "vwork/p") {
+			out = append(out, t)
+		}
+		if len(out) >= 8 {
+			break
+		}
+	}
+	return strings.Join(out, " | ")
 }
 
 func lastLines(s string, n int) string {
